@@ -3,9 +3,11 @@ Implementation: golem.core.dag.graph_verifier.GraphVerifier, golem.core.dag.veri
 BaseOptimizationAdapter.adapt_func / AdaptRegistry.is_native (IdentityAdapter, DirectAdapter,
 BaseNetworkxAdapter).  Model: coq/theories/Graph/Rules.v (agree / holds_b / check_case)."""
 import concurrent.futures
+import contextlib
 import functools
 import hashlib
 import itertools
+import logging
 import os
 import random
 import re
@@ -183,6 +185,36 @@ def rand_user_config(rng, n_edges):
     return rules
 
 
+def rand_family_config(rng, par):
+    """2-3 rules that unpack to ONE underlying function (partials of one function with different bound arguments, or
+    bound methods of different instances of one class) - all domain-level or all native, since the native flag sits
+    on the function - in an order that matters (loose / tight limits, pass / fail), mixed with built-in (native)
+    rules and possibly an unrelated user rule"""
+    n, n_edges = len(par), sum(len(q) for q in par)
+    form = rng.choice(['family-partial', 'family-method'])
+    native = rng.random() < 0.25
+    kind = rng.choice(['nodes', 'edges', 'const', 'mixed'])
+    fail = rng.choice(FAILS)
+    if kind == 'nodes':
+        specs = [['nodes', n + 1, fail], ['nodes', max(0, n - 1), fail]]
+    elif kind == 'edges':
+        specs = [['edges', n_edges + 1, fail], ['edges', max(0, n_edges - 1), fail]]
+    elif kind == 'const':
+        specs = [['const', rng.choice(['RTrue', 'RNone'])], ['const', fail]]
+    else:
+        specs = [['nodes', n, fail], ['const', fail], ['nested', rng.sample(range(6), 2)]]
+    if rng.random() < 0.5:
+        specs.reverse()
+    if kind != 'mixed' and rng.random() < 0.3:
+        specs.append(list(rng.choice(specs)))
+    rules = [['u', native, b, form] for b in specs]
+    for _ in range(rng.randint(0, 2)):
+        rules.insert(rng.randint(0, len(rules)), ['b', rng.randrange(6)])
+    if rng.random() < 0.25:
+        rules.insert(rng.randint(0, len(rules)), ['u', not native, rand_behaviour(rng, n_edges), rng.choice(FORMS)])
+    return rules
+
+
 def configs_for(rng, par, all_subsets, n_subsets, n_user, gid):
     n_edges = sum(len(p) for p in par)
     ads = ['I', 'Dr', 'X']
@@ -202,6 +234,8 @@ def configs_for(rng, par, all_subsets, n_subsets, n_user, gid):
         out.append(('subset', rng.choice(ads), rng.random() < 0.5, rand_subset(rng)))
     for _ in range(n_user):
         out.append(('user', rng.choice(ads), rng.random() < 0.5, rand_user_config(rng, n_edges)))
+    for _ in range(3 if all_subsets else 1):
+        out.append(('same-function', rng.choice(ads), rng.random() < 0.4, rand_family_config(rng, par)))
     # how the verifier is obtained: GraphVerifier(rules, adapter, raise_on_failure) directly, or the verifier of
     # GraphGenerationParams(adapter, rules_for_constraint=<list | tuple | argument omitted>) (flag off only)
     full = []
@@ -288,8 +322,10 @@ def mutate_arg(x, how):
             n.content['name'] = 'renamed'
 
 
-def make_user_rule(idx, native, behaviour, log, cur, form='function'):
-    """cur[0] = the graph being verified (a verifier instance may be used for several graphs)"""
+def make_user_rule(idx, native, behaviour, log, cur, form='function', family=None):
+    """cur[0] = the graph being verified (a verifier instance may be used for several graphs); family = the
+    session's shared function / class for the 'family-*' presentations"""
+    family = {} if family is None else family
     def body(x):
         log.append([idx, describe(x, cur[0])])
         if behaviour[0] == 'const':
@@ -334,11 +370,64 @@ def make_user_rule(idx, native, behaviour, log, cur, form='function'):
                 return body(x)
         underlying = RuleObject(idx)
         presented = functools.partial(underlying, unused=idx) if form.startswith('partial') else underlying
+    elif form == 'family-partial':
+        # several rules of one verifier are functools.partial objects of ONE function with different bound arguments
+        if 'fn' not in family:
+            def family_rule(x, spec):
+                return spec(x)
+            family['fn'] = family_rule
+        underlying = family['fn']
+        presented = functools.partial(underlying, spec=body)
+    elif form == 'family-method':
+        # several rules of one verifier are bound methods of different instances of ONE class
+        if 'cls' not in family:
+            class FamilyRule:
+                def __init__(self, spec):
+                    self.spec = spec
+
+                def check(self, x):
+                    return self.spec(x)
+            family['cls'] = FamilyRule
+        underlying = family['cls'].check
+        presented = family['cls'](body).check
     else:
         presented = underlying = body
     if native:
-        register_native(presented if form.endswith('-registered') else underlying)
+        target = presented if form.endswith('-registered') else underlying
+        if not AdaptRegistry.is_native(target):
+            register_native(target)
     return presented
+
+
+@contextlib.contextmanager
+def golem_logging_at_debug(on):
+    """run the block with the GOLEM logger at DEBUG (Log().reset_logging_level(logging.DEBUG), the switch the API's
+    logging_level parameter uses); the records are really created and handed to the handlers, a filter on each
+    handler drops them so that nothing is written; level, handler levels and logging.disable are restored"""
+    if not on:
+        yield
+        return
+    from golem.core.log import Log
+    log = Log()
+    prev_disable = logging.root.manager.disable
+    prev_level = log.logger.level
+    prev_handlers = [(h, h.level) for h in log.handlers]
+
+    def drop(record):
+        return False
+    logging.disable(logging.NOTSET)
+    log.reset_logging_level(logging.DEBUG)
+    for h, _ in prev_handlers:
+        h.addFilter(drop)
+    try:
+        yield
+    finally:
+        for h, level in prev_handlers:
+            h.removeFilter(drop)
+        log.reset_logging_level(prev_level)
+        for h, level in prev_handlers:
+            h.setLevel(level)
+        logging.disable(prev_disable)
 
 
 class Session:
@@ -346,7 +435,7 @@ class Session:
     several graphs; close() unregisters the native user rules"""
 
     def __init__(self, ad, raise_flag, rules, fresh_adapter=False, via='direct'):
-        self.log, self.made, self.cur = [], [], [None]
+        self.log, self.made, self.cur, self.family = [], [], [None], {}
         if rules == 'DEFAULT':
             real = vr.DEFAULT_DAG_RULES
         else:
@@ -355,7 +444,8 @@ class Session:
                 if r[0] == 'b':
                     real.append(builtin(r[1]))
                 else:
-                    f = make_user_rule(idx, r[1], r[2], self.log, self.cur, r[3] if len(r) > 3 else 'function')
+                    f = make_user_rule(idx, r[1], r[2], self.log, self.cur, r[3] if len(r) > 3 else 'function',
+                                       self.family)
                     self.made.append(f)
                     real.append(f)
         adapter = ADAPTERS[ad]() if fresh_adapter else adapter_of(ad)
@@ -396,13 +486,14 @@ class Session:
             reg.unregister_native(f)
 
 
-def observe(graph, ad, raise_flag, rules, via='direct'):
-    """a fresh GraphVerifier called once"""
-    sess = Session(ad, raise_flag, rules, via=via)
-    try:
-        return sess.call(graph)
-    finally:
-        sess.close()
+def observe(graph, ad, raise_flag, rules, via='direct', debug=False):
+    """a fresh GraphVerifier called once (debug: with the GOLEM logger at DEBUG)"""
+    with golem_logging_at_debug(debug):
+        sess = Session(ad, raise_flag, rules, via=via)
+        try:
+            return sess.call(graph)
+        finally:
+            sess.close()
 
 
 # ----------------------------------------------------------------------------------------
@@ -464,9 +555,13 @@ def do_graph(seed, par, gid, all_subsets, n_subsets, n_user):
     rng = graph_rng(seed, gid)
     g = build(par)
     runs, texts = [], []
-    for kind, ad, rf, rules, via in configs_for(rng, par, all_subsets, n_subsets, n_user, gid):
-        o = observe(g, ad, rf, rules, via)
-        runs.append({'kind': kind, 'adapter': ad, 'raise': rf, 'rules': rules, 'via': via, 'observed': o})
+    configs = configs_for(rng, par, all_subsets, n_subsets, n_user, gid)
+    drng = graph_rng(seed, gid + (1 << 30))
+    for kind, ad, rf, rules, via in configs:
+        debug = drng.random() < 0.25          # a quarter of all runs with the GOLEM logger at DEBUG
+        o = observe(g, ad, rf, rules, via, debug)
+        runs.append({'kind': kind, 'adapter': ad, 'raise': rf, 'rules': rules, 'via': via, 'debug': debug,
+                     'observed': o})
         texts.append(c_run(ad, rf, rules, o))
     if structure(g) != [list(p) for p in par]:
         raise RuntimeError('verification changed the graph %r into %r' % (par, structure(g)))
@@ -481,9 +576,10 @@ def stats_of(par, runs, acc):
         acc['n'] += 1
         nontrivial = n >= 2 and (r['rules'] == 'DEFAULT' or len(r['rules']) > 0 or r.get('via', 'direct') != 'direct')
         if nontrivial:
-            key = repr((gkey, r['adapter'], r['raise'], r['rules'], r.get('via', 'direct')))
+            key = repr((gkey, r['adapter'], r['raise'], r['rules'], r.get('via', 'direct'), bool(r.get('debug'))))
             acc['keys'].add(hashlib.sha1(key.encode()).hexdigest()[:16])
         facts = [('nodes', n), ('config', r['kind']), ('adapter', r['adapter']), ('verifier_from', r.get('via', 'direct')),
+                 ('logger_at_debug', bool(r.get('debug'))),
                  ('raise_on_failure', r['raise']), ('verdict', r['observed']['verdict'])]
         if r['rules'] != 'DEFAULT':
             for q in r['rules']:
@@ -557,7 +653,7 @@ def evaluate(ctx, group, items, shard):
     hit = set()
     for (par, r), (ag, ho) in zip(owners, rr):
         case = {'graph': par, 'adapter': r['adapter'], 'raise_on_failure': r['raise'], 'rules': r['rules'],
-                'via': r.get('via', 'direct'), 'observed': r['observed']}
+                'via': r.get('via', 'direct'), 'debug': bool(r.get('debug')), 'observed': r['observed']}
         if not ho:
             hit.add(repr(par))
             ctx.violate(group, case, 'verdict / rule argument contradicts the structural conditions of the '
@@ -643,6 +739,7 @@ def random_sequence(rng):
         seq.append({'graph': pool[i][0], 'names': pool[i][1], 'obj': rng.choice([i, i, 10 + len(seq)])})
     base = pool[0][0]
     return {'sequence': seq, 'adapter': rng.choice(['I', 'Dr', 'X']), 'raise_on_failure': rng.random() < 0.4,
+            'debug': rng.random() < 0.25,
             'rules': seq_rules(rng, len(base), sum(len(q) for q in base))}
 
 
@@ -675,8 +772,10 @@ def crafted_sequences():
 
 def observe_sequence(case):
     """one GraphVerifier instance and one adapter instance for the whole sequence"""
-    sess = Session(case['adapter'], case['raise_on_failure'], case['rules'], fresh_adapter=True)
     objs, obs, ids = {}, [], []
+    stack = contextlib.ExitStack()
+    stack.enter_context(golem_logging_at_debug(bool(case.get('debug'))))
+    sess = Session(case['adapter'], case['raise_on_failure'], case['rules'], fresh_adapter=True)
     try:
         for item in case['sequence']:
             g = objs.get(item['obj'])
@@ -688,6 +787,7 @@ def observe_sequence(case):
                 raise RuntimeError('verification changed the graph %r' % (item['graph'],))
     finally:
         sess.close()
+        stack.close()
     return obs, ids
 
 
@@ -715,7 +815,8 @@ def run_sequences(ctx, group, cases):
         skey = repr((case['sequence'], case['adapter'], case['raise_on_failure'], case['rules']))
         for i, o in enumerate(obs):
             ctx.count(group, key=(skey, i), nontrivial=twins, position=i, verdict=o['verdict'], adapter=case['adapter'],
-                      sequence_has_same_id_twins=twins, twins_with_different_verdicts=differ)
+                      sequence_has_same_id_twins=twins, twins_with_different_verdicts=differ,
+                      logger_at_debug=bool(case.get('debug')))
         full = dict(case)
         full['observed'] = obs
         if not ho:
@@ -769,6 +870,7 @@ def mutation_case(rng, par):
                           rng.choice(FORMS)])
     rf = rng.random() < 0.3
     return {'kind': 'mutating', 'graph': par, 'adapter': rng.choice(['I', 'Dr', 'Dr', 'X']), 'raise_on_failure': rf,
+            'debug': rng.random() < 0.25,
             'rules': rules, 'via': 'direct' if rf else rng.choice(['direct', 'params-list', 'params-tuple'])}
 
 
@@ -795,6 +897,8 @@ def observe_mutation(case, calls=2):
     """a fresh graph, ONE verifier, the same graph object verified `calls` times; after each call the structure of
     the verified graph and whether one of its nodes was renamed"""
     g = build(case['graph'])
+    stack = contextlib.ExitStack()
+    stack.enter_context(golem_logging_at_debug(bool(case.get('debug'))))
     sess = Session(case['adapter'], case['raise_on_failure'], case['rules'], fresh_adapter=True,
                    via=case.get('via', 'direct'))
     obs = []
@@ -806,6 +910,7 @@ def observe_mutation(case, calls=2):
             obs.append(o)
     finally:
         sess.close()
+        stack.close()
     return obs
 
 
@@ -832,7 +937,7 @@ def run_mutations(ctx, group, cases):
             ctx.count(group, key=(key, i), nontrivial=len(case['graph']) >= 2, call=i, verdict=o['verdict'],
                       adapter=case['adapter'], modifying_rule='%s %s' % ('native' if mut[1] else 'domain', mut[2][1]),
                       rule_gets_own_copy=prot, verified_graph_changed=o['final'] != case['graph'] or o['renamed'],
-                      verifier_from=case.get('via', 'direct'))
+                      verifier_from=case.get('via', 'direct'), logger_at_debug=bool(case.get('debug')))
         full = dict(case)
         full['observed'] = obs
         if not ho:
@@ -886,7 +991,8 @@ def run(ctx):
                 'a fresh graph verified twice by one verifier whose rule list contains a user rule that drops / reconnects / '
                 'renames nodes of its argument (native and domain-level, all adapters); non-trivial = graph with >= 2 nodes.  '
                 'Verifiers are built as GraphVerifier(...) or through GraphGenerationParams (list / tuple / default / EMPTY '
-                'rule collection)')
+                'rule collection); a quarter of all runs with the GOLEM logger at DEBUG; config same-function = two or three user '
+                'rules of one verifier unpacking to ONE underlying function (partials / bound methods), both orders')
     ctx.trusted_extra = [
         'NetworkX: DiGraph / Graph adjacency and isolates are modelled by their documented meaning (degree 0), the '
         'breadth-first search of is_connected by a hand-copied literal model (Graph/RulesBfs.v); both are tied to the '
@@ -994,17 +1100,18 @@ def replay(ctx, payload):
     mut_todo = [c for c in todo if c and c.get('kind') == 'mutating']
     todo = [c for c in todo if c and c.get('kind') != 'mutating']
     if mut_todo:
-        run_mutations(ctx, 'replay-modifying', [{k: c[k] for k in ('kind', 'graph', 'adapter', 'raise_on_failure', 'rules', 'via')
+        run_mutations(ctx, 'replay-modifying', [{k: c[k] for k in ('kind', 'graph', 'adapter', 'raise_on_failure', 'rules', 'via', 'debug')
                                                  if k in c} for c in mut_todo])
     seq_todo = [c for c in todo if c and 'sequence' in c]
     todo = [c for c in todo if c and 'sequence' not in c]
     if seq_todo:
-        run_sequences(ctx, 'replay-sequence', [{k: c[k] for k in ('sequence', 'adapter', 'raise_on_failure', 'rules')}
+        run_sequences(ctx, 'replay-sequence', [{k: c[k] for k in ('sequence', 'adapter', 'raise_on_failure', 'rules', 'debug') if k in c}
                                                for c in seq_todo])
     texts, done = [], []
     for case in todo:
         par = case['graph']
-        o = observe(build(par), case['adapter'], case['raise_on_failure'], case['rules'], case.get('via', 'direct'))
+        o = observe(build(par), case['adapter'], case['raise_on_failure'], case['rules'], case.get('via', 'direct'),
+                    bool(case.get('debug')))
         texts.append(c_case(par, [c_run(case['adapter'], case['raise_on_failure'], case['rules'], o)]))
         c = dict(case)
         c['observed'] = o
